@@ -248,7 +248,16 @@ func getRSAAlgorithm(keySize int) httpsig.SignatureAlgorithm {
 		return httpsig.RsaPssSha384
 	case 4096: //nolint: mnd
 		return httpsig.RsaPssSha512
+	}
+
+	// key sizes below 2048 bits are rejected while the key store is loaded. For
+	// all other sizes, the algorithm matching the strength of the key is used.
+	switch {
+	case keySize < 3072: //nolint: mnd
+		return httpsig.RsaPssSha256
+	case keySize < 4096: //nolint: mnd
+		return httpsig.RsaPssSha384
 	default:
-		panic(fmt.Sprintf("unsupported RSA key size: %d", keySize))
+		return httpsig.RsaPssSha512
 	}
 }
